@@ -955,8 +955,21 @@ class Exceptions:
         if h.type is None:
             return [self.builtin(BaseException)]
         elts = h.type.elts if isinstance(h.type, ast.Tuple) else [h.type]
-        out = []
+        # a local name bound once to a tuple of classes (`errs = A, B`)
+        expanded = []
         for e in elts:
+            if isinstance(e, ast.Name) and self.cg.resolve_name_expr(
+                    fi, e) in (None,) or (
+                    isinstance(e, ast.Name) and (self.cg.resolve_name_expr(
+                        fi, e) or ('',))[0] == 'local'):
+                from .util import assigned_value
+                vals = assigned_value(fi, e.id)
+                if len(vals) == 1 and isinstance(vals[0], ast.Tuple):
+                    expanded += list(vals[0].elts)
+                    continue
+            expanded.append(e)
+        out = []
+        for e in expanded:
             c = self.exc_of_expr(fi, e)
             if c is None:
                 raise AnalysisError('%s:%d: cannot resolve exception class %s' % (
